@@ -305,9 +305,10 @@ Proof. exact ex_accepted. Qed.
 (* ---- what the enqueue law (119) counts, recomputed from the PodGroup objects and the pods ---- *)
 
 (* an admitted (Inqueue) PodGroup counts for exactly its minResources in every dimension they list,
-   whether or not its pods exist yet *)
+   whether or not its pods exist yet (minus what its scheduling-gated pods request) *)
 Theorem C03_counted_inqueue_is_min : forall (j : EnqueueLaw.ejob) (d : nat) (m : Z),
-  EnqueueLaw.min_at j d = Some m -> 0 <= nth d (EnqueueLaw.ej_alloc j) 0 -> EnqueueLaw.counted 2 j d = m.
+  EnqueueLaw.min_at j d = Some m -> 0 <= nth d (EnqueueLaw.ej_alloc j) 0 -> nth d (EnqueueLaw.ej_gated j) 0 = 0 ->
+  EnqueueLaw.counted 2 j d = m.
 Proof. exact EnqueueLaw.counted_inqueue_is_min. Qed.
 Print Assumptions C03_counted_inqueue_is_min.
 
